@@ -20,12 +20,12 @@
 #include "c14_sv.h"
 size_t g_m0;    /* a.size() on entry */
 ELEM g_old_o;   /* b[g_k] on entry */
-#define SPEC_INV(j) ((j) >= CAP || (((j) < pos ? (self->_data[j].g_state == ELEM_LIVE && self->_data[j].v == other->_data[j].v && \
-                                                  other->_data[j].g_state == ELEM_MOVED) \
-                                               : (((j) >= g_m0 ? self->_data[j].g_state == ELEM_RAW \
-                                                               : ((j) != g_k || (self->_data[j].v == g_old_k.v && self->_data[j].g_state == g_old_k.g_state))) && \
-                                                  ((j) < other->m_size ? other->_data[j].g_state == ELEM_LIVE : other->_data[j].g_state == ELEM_RAW))) && \
-                                    ((j) != g_k || other->_data[j].v == g_old_o.v)))
+#define SPEC_INV(j) ((j) >= CAP || (((j) < pos ? (ELEM_ST(&self->_data[j]) == ELEM_LIVE && ELEM_V(&self->_data[j]) == ELEM_V(&other->_data[j]) && \
+                                                  ELEM_ST(&other->_data[j]) == ELEM_MOVED) \
+                                               : (((j) >= g_m0 ? ELEM_ST(&self->_data[j]) == ELEM_RAW \
+                                                               : ((j) != g_k || (ELEM_V(&self->_data[j]) == ELEM_V(&g_old_k) && ELEM_ST(&self->_data[j]) == ELEM_ST(&g_old_k)))) && \
+                                                  ((j) < other->m_size ? ELEM_ST(&other->_data[j]) == ELEM_LIVE : ELEM_ST(&other->_data[j]) == ELEM_RAW))) && \
+                                    ((j) != g_k || ELEM_V(&other->_data[j]) == ELEM_V(&g_old_o))))
 #define C14_HAVE_SV
 #include "cxx/sv.c"
 #include "c14_harness.h"
@@ -55,7 +55,7 @@ void harness(void)
     V(__CPROVER_assert(v.m_size == m && SV_SIZE_OK(&v), "size' == old other.size() <= N");)
     V(__CPROVER_assert(SV_SIZE_OK(&o), "the moved-from vector has a size <= N");)
     if (k < cap) {
-        if (k < m) V(__CPROVER_assert(v._data[k].v == g_old_o.v, "element k has the value other[k] had");)
+        if (k < m) V(__CPROVER_assert(ELEM_V(&v._data[k]) == ELEM_V(&g_old_o), "element k has the value other[k] had");)
         L(__CPROVER_assert(SV_SLOT_OK(&v, k), "SV: slots below m_size LIVE, the others RAW (old elements destroyed exactly once)");)
         L(__CPROVER_assert(SV_SLOT_VALID(&o, k), "moved-from vector: every object it still holds is below its size (will be destroyed exactly once), none beyond");)
     }
